@@ -305,7 +305,10 @@ Fixpoint compile (ls : lstack) (base : Z) (s : stmt) : list op * lstack :=
 Definition parse (s : stmt) : list op := fst (compile [[]] 0 s).
 
 (* ---------- the machine: Call / execOp ---------- *)
-Inductive mres := MDone (st : state) | MErr | MPanic | MNoFuel.
+(* MStale: an operation read a variable that is not in scope.  replaceVariablesInExpr then leaves the ColName node as it
+   is, still carrying the value an EARLIER evaluation of the same AST node stored in it (or fails with "column not found"
+   if there was none): the run has left the modelled territory; it only happens after a jump to a wrong place. *)
+Inductive mres := MDone (st : state) | MErr | MPanic | MNoFuel | MStale.
 
 Definition scope_effect_fwd (o : option op) (st : state) : state :=
   match o with
@@ -348,7 +351,7 @@ Fixpoint walk_bwd (ops : list op) (n : nat) (counter target : Z) (st : state) : 
     end
   else Some (counter, st).
 
-Inductive sres := SOk (counter : Z) (st : state) | SErr | SPanic.
+Inductive sres := SOk (counter : Z) (st : state) | SErr | SPanic | SStale.
 
 (* execOp: returns the new counter (the caller increments it) *)
 Definition exec_op (ops : list op) (counter : Z) (o : op) (st : state) : sres :=
@@ -357,13 +360,13 @@ Definition exec_op (ops : list op) (counter : Z) (o : op) (st : state) : sres :=
   | OpRaise _ => SErr
   | OpSet x e => match eval st e with
                  | Some v => match set_var st x v with Some st' => SOk counter st' | None => SErr end
-                 | None => SErr
+                 | None => SStale
                  end
-  | OpExecUser u e => match eval st e with Some v => SOk counter (set_user st u v) | None => SErr end
+  | OpExecUser u e => match eval st e with Some v => SOk counter (set_user st u v) | None => SStale end
   | OpDeclare x v => SOk counter (declare_var st x v)
   | OpIf c idx => match eval st c with
                   | Some v => if truthy v then SOk counter st else SOk (idx - 1) st
-                  | None => SErr
+                  | None => SStale
                   end
   | OpGoto _ idx =>
       let n := S (length ops + Z.to_nat (Z.abs idx) + Z.to_nat (Z.abs counter)) in
@@ -434,6 +437,7 @@ Fixpoint run (ops : list op) (fuel : nat) (counter : Z) (st : state) : mres :=
                                | HPanic => MPanic
                                end
                      | SPanic => MPanic
+                     | SStale => MStale
                      end
          end
   end.
